@@ -217,6 +217,9 @@ func checkC07(c *Ctx) {
 	// C07.7 relabelled QC view must not verify
 	checkQCViewBinding(c, "C07.7")
 
+	// C07.9 a certificate that failed verification is never remembered as valid (the cache must not change verdicts)
+	c.importFrom(checkC11, "C07.9", "C11.2")
+
 	// C07.8 lock discipline of the shared view state
 	c.checkGuard("C07.8", guards["ViewStates"])
 }
